@@ -1,12 +1,20 @@
 """C06 - WSGI, ASGI and the test client are observationally equivalent."""
 PROP = 'C06'
-LEAN_MODULES = ['FalconModel.FinalizeProofs', 'FalconModel.FinalizeProofs2', 'FalconModel.WireProofs', 'FalconModel.WirePathProofs']
-DRIVERS = ['fzdriver', 'wrdriver']
+LEAN_MODULES = ['FalconModel.FinalizeProofs', 'FalconModel.FinalizeProofs2', 'FalconModel.FinalizeReaderProofs', 'FalconModel.WireProofs', 'FalconModel.WirePathProofs', 'FalconModel.ReqMemoProofs']
+DRIVERS = ['fzdriver', 'wrdriver', 'rmdriver']
 THEOREMS = [
     # response side: the two finalization tails agree on every response state (relational theorem) ...
     'Fz.wsgi_asgi_agree',
     # ... and therefore every single-stack statement of C05 transfers (proved *through* the agreement theorem)
     'Fz.asgi_bodiless_no_payload', 'Fz.asgi_content_length_exact', 'Fz.asgi_body_precedence',
+    # response side, file-like streams by their read contract (FinalizeReader.lean, namespace Fr): short reads before the end of the data
+    'Fr.wsgi_payload_complete', 'Fr.asgi_payload_complete', 'Fr.failing_reader_prefix', 'Fr.pump_complete', 'Fr.pump_prefix', 'Fr.pump_eq_drainFile',
+    'Fr.drain_blocks', 'Fr.handouts_flatten', 'Fr.pump_block_size_irrelevant', 'Fr.read_progress', 'Fr.read_append', 'Fr.read_empty_end', 'Fr.capAt_pos',
+    'Fr.short_block_stop_witness',
+    # request side, one request object under every history of reads (ReqMemo.lean, namespace Rm): the memoized accessors of both request classes
+    'Rm.history_independent', 'Rm.wsgi_history_independent', 'Rm.asgi_history_independent', 'Rm.stacks_histories_agree', 'Rm.reread_same',
+    'Rm.read_pure', 'Rm.run_pure', 'Rm.wf_of_wfB', 'Rm.wsgi_wf', 'Rm.asgi_wf', 'Rm.inv_init', 'Rm.foldl_inv', 'Rm.Attr.mem_all',
+    'Rm.wrong_guard_rejected', 'Rm.wrong_guard_witness',
     # request side (Wire.lean): one wire-level header list, the PEP 3333 environ and the ASGI scope built from it, falcon's two header stores
     'Wr.header_lookup_agree', 'Wr.singleton_exclusion_exact', 'Wr.headers_agree', 'Wr.wsgi_headers_upper',
     'Wr.content_type_agree', 'Wr.content_length_raw_agree', 'Wr.content_length_agree',
@@ -40,6 +48,26 @@ STATEMENTS = {
     'Fz.asgi_body_precedence': 'the ASGI payload obeys the same precedence text > data > media > stream as the WSGI one (corollary of the agreement theorem)',
     'Fz.asgi_content_length_exact': 'the ASGI Content-Length is exact under the same conditions as the WSGI one (corollary)',
     'Fz.asgi_bodiless_no_payload': 'HEAD / 1xx / 204 / 304 carry no payload on ASGI either (corollary)',
+    'Fr.wsgi_payload_complete': 'for every content, every short-read pattern of a file-like resp.stream (the i-th read(n) returns at most caps[i] bytes, later calls at most tail bytes; all positive - only b"" means end of file), '
+                                'every status that allows a body and every header dict / cookie list, on a non-HEAD request: the chunks of the iterable falcon.App.__call__ returns (CloseableStreamIterator or the server\'s wsgi.file_wrapper, '
+                                'read(8192) until b"") concatenate to exactly the content, and the iteration ends without an exception',
+    'Fr.asgi_payload_complete': 'the same for falcon.asgi.App.__call__: the body fields of the http.response.body events concatenate to exactly the content (so with Fz.wsgi_asgi_agree both stacks deliver the same complete payload for every short-read pattern)',
+    'Fr.failing_reader_prefix': 'if a read() call raises, both stacks have handed the server the same bytes, and those are a prefix of the content',
+    'Fr.pump_complete': 'the loop "data = read(n); stop at b\'\'; deliver data" run on the object delivers exactly its content, for every positive block size n and every positive cap pattern',
+    'Fr.pump_eq_drainFile': 'that loop on the object equals Fz.drainFile (the loop of the Fz model) on the list of what the read(n) calls return - the bridge that lets the Fz theorems speak about file objects',
+    'Fr.pump_block_size_irrelevant': 'two pumps with different positive block sizes deliver the same bytes',
+    'Fr.short_block_stop_witness': 'the statement is not vacuous: on bursts of 5, 5, 2 bytes a loop that stops at the first block shorter than the block size delivers 5 of 12 bytes, the real loop all 12',
+    'Rm.history_independent': 'for EVERY table of accessors that passes the decidable check wfB (each memoized accessor tests, assigns and returns one and the same private cell, that cell starts out holding its '
+                              '"not computed yet" marker, no two accessors share a cell), every assignment of computed values and every history of reads on a fresh request object (any order, any repetition, '
+                              'accessors that read other accessors while they compute): every read returns the value its accessor computes - never a stale value, another accessor\'s value or a marker',
+    'Rm.wsgi_history_independent': 'falcon.Request (the transcribed table: _cached_forwarded, _cached_uri, _cached_relative_uri, _cached_prefix, _cached_forwarded_uri, _cached_forwarded_prefix, _cached_headers, _cached_headers_lower, '
+                                   '_cached_access_route, _cached_if_match, _cached_if_none_match, _cookies, _cookies_collapsed and the accessors that read each other) passes the check, so every read of every history returns the computed value',
+    'Rm.asgi_history_independent': 'the same for falcon.asgi.Request (if_match, if_none_match, headers, headers_lower, access_route, remote_addr, forwarded_scheme, forwarded_host re-implemented; the rest inherited)',
+    'Rm.stacks_histories_agree': 'if the accessors read by a history compute the same values from the environ and from the scope (what Wr.* and Wq.request_view_agree prove for the attributes they cover), the WSGI and the ASGI responder see the '
+                                 'same value at every read of that history - the agreement of the two stacks does not depend on the order or repetition of reads',
+    'Rm.reread_same': 'an attribute read a second time (anything in between) returns the same value',
+    'Rm.wrong_guard_rejected': 'the check is not vacuous: the table in which if_match tests the cell of if_none_match is rejected',
+    'Rm.wrong_guard_witness': '... and necessary: on that table the history if_none_match; if_match returns the _UNSET sentinel for if_match while if_match; if_none_match returns the value',
     'Wr.header_lookup_agree': 'for every wire-level list of field lines (any length, names in any case, repeats, empty values) whose names are ASCII without "_" and in which no singleton header (Content-Length, Content-Type, Cookie, Expect, From, Host, Max-Forwards, Referer, User-Agent) is repeated, for every looked-up name (ASCII without "_", any case) and every required= / default=: falcon.Request(environ built by a PEP 3333 server).get_header(name, ...) and falcon.asgi.Request(scope built by an ASGI server).get_header(name, ...) return the same value, the same default, or both raise HTTPMissingHeader',
     'Wr.singleton_exclusion_exact': 'for every header list with ASCII "_"-free names: the two get_header agree on every name IF AND ONLY IF no singleton header is repeated (a repeated singleton is comma-joined by the PEP 3333 server and reduced to its last field line by falcon.asgi.Request, and the join is strictly longer)',
     'Wr.headers_agree': 'on the same domain WSGI req.headers_lower and ASGI req.headers (= headers_lower) are the same list of items, in the same iteration order: lower-cased names in order of first occurrence, repeated field lines comma-joined',
@@ -104,6 +132,8 @@ STATEMENTS = {
 TRUSTED = [
     'harness/lib_http.py: the spec-faithful WSGI and ASGI drivers (written from PEP 3333 / RFC 3875 and the ASGI HTTP spec) are what "a server" means',
     'a mounted application sees the path without the mount point on both interfaces (SCRIPT_NAME / root_path), as falcon documents',
+    'Rm: the values the accessors compute are abstract (a parameter of the theorems); the reference value of an attribute is what a fresh request object returns for it when nothing else has been read',
+    'Fr: a file-like object is its content plus a per-call cap on what read(n) returns (lib_respspace.Probe implements exactly that); the block size 8192 is falcon\'s _STREAM_BLOCK_SIZE / the PEP 3333 file_wrapper block size',
     'asyncio.wait_for(app, 2 s) deciding "the ASGI application did not return"',
     'Wq: Qs.parseQS (C08) as parse_query_string, Fw.accessRoute (C09) as the header-derived access route, Hp.parseHost / Hp.pyInt (C09) as parse_host / int() - each tied to the code by its own property\'s correspondence and again, end to end, by the third correspondence here',
 ]
@@ -120,12 +150,13 @@ RULE = ('random wire-level requests: method x path from 0-4 segments (plain, per
         'raw query (repeated keys, blanks, CSV, percent-encoded UTF-8 / invalid bytes, "+", bare keys) x 0-7 headers from 24 header grammars in random case, non-singletons repeated, latin-1 values, present-but-empty values (5 %, Accept 15 %), '
         'Host forms (name, name:port, IPv6, absent on HTTP/1.0, invalid port) x body (empty, JSON valid/invalid, urlencoded form, binary) with matching Content-Length or a malformed Content-Length on an empty body x '
         'scheme x server address x client address x root_path x request options (strip_url_path_trailing_slash, keep_blank_qs_values, auto_parse_qs_csv) x body access mode (read, sized reads, iterate, get_media, none) x '
-        'C05 response plans (without SSE). Each case is run four times: spec WSGI driver, spec ASGI driver (random event chunking, optional keys omitted), falcon.testing.simulate_request on the WSGI app and on the ASGI app. '
+        'C05 response plans (without SSE) x C06\'s own responder / application dimensions: the ORDER in which the responder reads the request - the 45 public attributes and 5 blocks of method calls (get_header*, get_header_as_*, get_param*, get_cookie_values, client_accepts / client_prefers) in the documented order (25 %), in a random permutation with 0-6 attributes read a second / third time, or everything in one random order and then every attribute again in another (15 %); the same script on all four paths, recorded in the case; a re-read value must equal the first and every value must have its documented type (a private sentinel is a failure) - x App(request_type=) stock or a do-nothing subclass (1/3) x App(response_type=) stock, do-nothing subclass, render_body override x media drawn in 35 % of the media plans from the falsy JSON documents {} [] 0 0.0 false "" x file-like streams that honour read(n) and return SHORT reads before the end (30 % of the file-like streams; with and without close(), optional failing call): content of 0 ... 40000 bytes (boundaries 8191/8192/8193, 16383/16384/16385), the i-th read returns at most caps[i] bytes: one byte at a time, random caps from 1 ... 30000, a pattern that changes (full blocks then short reads or the reverse), bursts of 8190 ... 8194 / 4096 / 1 bytes around the 8 KiB block size, or a regular file for comparison; the payloads are compared complete. Each case is run four times: spec WSGI driver, spec ASGI driver (random event chunking, optional keys omitted), falcon.testing.simulate_request on the WSGI app and on the ASGI app. '
         'non-trivial = at least one header besides Host/User-Agent or a query or a body; distinct = distinct (wire request, options, plan). '
         'Header-store cases (second correspondence): 0-8 field lines drawn with repeats from a per-case pool of singleton / non-singleton / look-alike (Content-Typ, Http-Content-Type, SS) / "_" names in random '
         'per-character case, values incl. empty, latin-1, commas, Content-Length grammars (signs, underscores, NBSP); 60 % repaired into the theorem domain (singletons once, no "_"); 2-8 looked-up names per case '
         '(present names re-cased, "-"/"_" swapped, absent, latin-1 such as "\xdf"), each with get_header(n), (n, default=), (n, required=True); environ / scope built by lib_http, '
         'falcon.Request / falcon.asgi.Request constructed directly; non-trivial = at least two field lines. '
+        'Read-history cases (fourth correspondence): a wire request of the first generator (no body) -> environ / scope by lib_http -> ONE falcon.Request and ONE falcon.asgi.Request (stock class, 1/3 a do-nothing subclass; the 8 option settings), on which the same history is read: 65 % a read script as above over the 45 attributes + get_cookie_values, 35 % a short script of 2-8 reads drawn with repetition from the 17 accessors that memoize or read a memoized one (if_match, if_none_match, forwarded, uri, url, relative_uri, prefix, forwarded_uri, forwarded_prefix, forwarded_scheme, forwarded_host, headers, headers_lower, cookies, get_cookie_values, access_route, remote_addr); reference = the value of each attribute on a fresh object of its own; every read must equal it (per stack), the stacks must agree read by read, types as documented; non-trivial = at least two different attributes. '
         'Target / connection cases (third correspondence): method (11 standard tokens; 6 % lower / mixed case) x raw request-target BYTES: path "/" (6 %), empty (3 %, mount point = whole path) or 1-4 segments from 39 '
         '(plain, percent-encoded UTF-8 of 2/3/4 bytes, truncated / overlong / surrogate / > U+10FFFF sequences, lone continuation bytes, malformed "%", "%zz", %2F, %3F, %25, "+") with 0-2 trailing slashes, 4 % with a raw non-ASCII byte; '
         'query from 30 (repeats, blanks, CSV, escapes, second "?", "&&", "=v"), 10 % "?" with an empty query, 6 % with raw non-ASCII bytes x scheme (http / https; 8 % ws, wss, ftp, HTTP, HTTPS, "") x 5 server names x 9 ports '
@@ -136,7 +167,7 @@ RULE = ('random wire-level requests: method x path from 0-4 segments (plain, per
 PARTIAL = ('The Lean theorems cover the response side (finalization of any response state is identical on both stacks) and, on the request side, (1) the header stores: get_header, headers / headers_lower, '
            'content_type, content_length agree for every header list of the domain (Wr.*), and (2) the request line and the connection: method, path, query_string, params, root_path / app, scheme, host, port, netloc, '
            'remote_addr, access_route agree for every wire request of the domain and every liberty of the servers, incl. scope["client"] = None (Wq.request_view_agree; path and scheme without any hypothesis; the method / query / mount-point / '
-           'client-address exclusions proved exact, the others necessary). The remaining request attributes (uri / url / relative_uri / prefix and the forwarded_* family, subdomain, typed header accessors, cookies, body, media), the http_version '
+           'client-address exclusions proved exact, the others necessary); (3) the memoized accessors: under every history of reads on one request object (any order, any repetition) every read returns the value its accessor computes, on both classes, so the agreement of the stacks does not depend on the order of reads (Rm.*; the values computed by accessors outside Wr / Wq are a parameter of these theorems); and on the response side also file-like streams by their read contract: every short-read pattern is delivered completely and identically by both stacks (Fr.*). The remaining request attributes (uri / url / relative_uri / prefix and the forwarded_* family, subdomain, typed header accessors, cookies, body, media), the http_version '
            '(no Request attribute on either stack; only falcon.asgi.App validates scope["http_version"]) and the equivalence of falcon.testing.simulate_request with the spec-faithful drivers rest on the differential '
            'comparison only (translation-validation strength, not proof).')
 JOBS = {'quick': 4, 'thorough': 16}
@@ -184,6 +215,146 @@ ATTRS = ['method', 'path', 'query_string', 'params', 'content_type', 'content_le
          'client_accepts_json', 'client_accepts_xml', 'client_accepts_msgpack', 'uri_template', 'is_websocket']
 
 
+# ---------------------------------------------------------------------- generators
+def gen_wire(rnd, H):
+    method = rnd.choice(['GET', 'GET', 'POST', 'PUT', 'HEAD', 'DELETE', 'PATCH', 'OPTIONS'])
+    r = rnd.random()
+    if r < 0.12:
+        path = '/items/' + rnd.choice(['42', 'caf%C3%A9', 'a%2Fb', '%ff']) + rnd.choice(['', '', '/', '/sub/7', '/sub/x'])
+    elif r < 0.18:
+        path = '/'
+    else:
+        path = '/' + '/'.join(rnd.choice(SEGS) for _ in range(rnd.randint(1, 4))) + rnd.choice(['', '', '/'])
+    query = rnd.choice(QUERIES)
+    target = path + ('?' + query if query or rnd.random() < 0.05 else '')
+    names = rnd.sample([h for h in HV if h != 'User-Agent'], rnd.randint(0, 6))
+    headers = []
+    for n in names:
+        nm = rnd.choice([n, n.lower(), n.upper()])
+        # a field line that is present but empty ("Accept:") is legal HTTP; Accept gets it more often (its absent/empty defaulting is per-stack code)
+        headers.append((nm, '' if rnd.random() < (0.15 if n == 'Accept' else 0.05) else rnd.choice(HV[n])))
+        if rnd.random() < 0.2 and n.lower() not in SINGLETONS:
+            headers.append((rnd.choice([nm, n.lower()]), '' if rnd.random() < 0.05 else rnd.choice(HV[n])))
+    headers.append((rnd.choice(['User-Agent', 'user-agent']), '' if rnd.random() < 0.03 else rnd.choice(HV['User-Agent'])))
+    http10 = rnd.random() < 0.05
+    if not http10:
+        headers.insert(rnd.randint(0, len(headers)), (rnd.choice(['Host', 'host', 'HOST']), rnd.choice(HOSTS[:8]) if rnd.random() < 0.93 else rnd.choice(HOSTS[8:])))
+    ctype, body = rnd.choice(BODIES) if method in ('POST', 'PUT', 'PATCH', 'DELETE') or rnd.random() < 0.1 else (None, b'')
+    if ctype is not None:
+        headers.append((rnd.choice(['Content-Type', 'content-type']), ctype))
+    if body:
+        headers.append((rnd.choice(['Content-Length', 'content-length']), str(len(body))))
+    else:
+        r = rnd.random()
+        if r < 0.15:
+            headers.append(('Content-Length', '0'))
+        elif r < 0.21:
+            headers.append(('Content-Length', rnd.choice(['x', '-1', '', '1e3', '5'])))
+    rnd.shuffle(headers)
+    scheme = rnd.choice(['http', 'http', 'https'])
+    server = (rnd.choice(['falconframework.org', 'localhost', '10.0.0.5']), rnd.choice([80, 443, 8080]))
+    client = rnd.choice([None, ('10.0.0.1', 5555), ('192.0.2.7', 40000), ('1.1.1.1', 1)])
+    w = H.Wire(method, target, headers, body, scheme, server, client, rnd.choice(['', '', '/app', '/a/b']))
+    w.http10 = http10
+    return w
+
+
+# ---------------------------------------------------------------------- what a responder reads, and in which order
+# the method-call probes, as blocks that a read script places between the attribute reads
+GROUPS = ['get_header*', 'get_header_as*', 'get_param*', 'get_cookie_values*', 'client_accepts*']
+_STR = {'method', 'path', 'query_string', 'host', 'netloc', 'scheme', 'forwarded_scheme', 'forwarded_host', 'root_path', 'app', 'uri', 'url',
+        'relative_uri', 'prefix', 'forwarded_uri', 'forwarded_prefix', 'accept', 'remote_addr'}
+_OPT_STR = {'content_type', 'subdomain', 'user_agent', 'auth', 'expect', 'if_range', 'referer', 'range_unit', 'uri_template'}
+_OPT_DT = {'date', 'if_modified_since', 'if_unmodified_since'}
+_BOOL = {'client_accepts_json', 'client_accepts_xml', 'client_accepts_msgpack', 'is_websocket'}
+_STR_MAP = {'cookies', 'headers', 'headers_lower'}
+
+
+def canon(v):
+    """a request attribute value as plain data (so that values of two request objects can be compared)"""
+    if hasattr(v, 'is_weak'):  # ETag
+        return ['etag', str(v), bool(v.is_weak)]
+    if isinstance(v, (str, int, float, bool, bytes)) or v is None:
+        return v
+    if isinstance(v, dict):
+        return {str(k): canon(x) for k, x in sorted(v.items(), key=lambda kv: str(kv[0]))}
+    if isinstance(v, (list, tuple)):
+        return [canon(x) for x in v]
+    if hasattr(v, 'src') and hasattr(v, 'dest'):  # Forwarded
+        return ['fwd', v.src, v.dest, v.host, v.scheme]
+    if hasattr(v, 'isoformat'):
+        return ['dt', v.isoformat()]
+    return ['obj', type(v).__name__]
+
+
+def doc_type_ok(a, v):
+    """Is `v` a value of the type the API reference documents for the public request attribute `a` (falcon.Request and
+    falcon.asgi.Request document the same types)?  Anything else - in particular a private sentinel - is not a request
+    attribute value an application can be expected to handle."""
+    import datetime
+    from collections.abc import Mapping
+    import falcon
+    if a in _STR:
+        return isinstance(v, str)
+    if a in _OPT_STR:
+        return v is None or isinstance(v, str)
+    if a in _OPT_DT:
+        return v is None or isinstance(v, datetime.datetime)
+    if a in _BOOL:
+        return isinstance(v, bool)
+    if a in _STR_MAP:
+        return isinstance(v, Mapping) and all(isinstance(k, str) and isinstance(x, str) for k, x in v.items())
+    if a == 'content_length':
+        return v is None or (isinstance(v, int) and not isinstance(v, bool))
+    if a == 'port':
+        return isinstance(v, int) and not isinstance(v, bool)
+    if a in ('if_match', 'if_none_match'):
+        return v is None or (isinstance(v, list) and all(isinstance(x, falcon.ETag) or x == '*' for x in v))
+    if a == 'forwarded':
+        return v is None or (isinstance(v, list) and all(isinstance(x, falcon.Forwarded) for x in v))
+    if a == 'range':
+        return v is None or (isinstance(v, tuple) and len(v) == 2 and all(isinstance(x, int) and not isinstance(x, bool) for x in v))
+    if a == 'params':
+        return isinstance(v, dict) and all(isinstance(k, str) and (isinstance(x, str) or (isinstance(x, list) and all(isinstance(y, str) for y in x)))
+                                           for k, x in v.items())
+    if a == 'access_route':
+        return isinstance(v, list) and all(isinstance(x, str) for x in v)
+    return True
+
+
+def gen_reads(rnd, names, groups=()):
+    """A read script: the order in which one responder looks at the request.  Every name is read at least once.
+    documented (25 %): the fixed order of the API reference; permutation: a random order, 0-6 names read a second or third
+    time at random later or earlier positions; twice: everything in one random order, then everything again in another
+    (every attribute is re-read after every other one has been read)."""
+    r = rnd.random()
+    if r < 0.25:
+        return 'documented order'
+    reads = list(names) + list(groups)
+    rnd.shuffle(reads)
+    if r < 0.4:
+        again = list(names)
+        rnd.shuffle(again)
+        return reads + again
+    for _ in range(rnd.choice([0, 1, 2, 3, 6])):
+        reads.insert(rnd.randint(0, len(reads)), rnd.choice(names))
+    return reads
+
+
+def digest_faults(d):
+    """What is wrong with ONE responder's view of ONE request object, whatever the other stack says: an attribute that was
+    read again gave another value, or a value is not of the documented type."""
+    bad = []
+    for k, v in d.items():
+        if v and v[0] == 'UNDOCUMENTED TYPE':
+            bad.append(f'{k}: a {v[1]} ({v[2]}) is not a documented value of this attribute')
+        if ' (read #' in k:
+            first = d.get(k[:k.index(' (read #')])
+            if first != v:
+                bad.append(f'{k}: {v!r}, first read: {first!r}')
+    return bad
+
+
 def run(ctx):
     import asyncio
     import io
@@ -201,59 +372,71 @@ def run(ctx):
     CUR = {}
 
     # ------------------------------------------------------------------ what the responder sees
-    def canon(v):
-        if hasattr(v, 'is_weak'):  # ETag
-            return ['etag', str(v), bool(v.is_weak)]
-        if isinstance(v, (str, int, float, bool, bytes)) or v is None:
-            return v
-        if isinstance(v, dict):
-            return {str(k): canon(x) for k, x in sorted(v.items(), key=lambda kv: str(kv[0]))}
-        if isinstance(v, (list, tuple)):
-            return [canon(x) for x in v]
-        if hasattr(v, 'src') and hasattr(v, 'dest'):  # Forwarded
-            return ['fwd', v.src, v.dest, v.host, v.scheme]
-        if hasattr(v, 'isoformat'):
-            return ['dt', v.isoformat()]
-        return ['obj', type(v).__name__]
-
-    def guard(d, key, fn):
+    def guard(d, key, fn, doc=None):
         try:
-            d[key] = ['ok', canon(fn())]
+            v = fn()
+            if doc is not None and not doc_type_ok(doc, v):
+                d[key] = ['UNDOCUMENTED TYPE', type(v).__name__, repr(v)[:60]]
+            else:
+                d[key] = ['ok', canon(v)]
         except falcon.HTTPError as e:
             d[key] = ['http', e.status if isinstance(e.status, (int, str)) else str(e.status), e.title, e.description]
         except Exception as e:  # noqa
             d[key] = ['EXC', type(e).__name__]
 
+    def probe_group(d, req, g):
+        if g == 'get_header*':
+            for hn in ['X-Custom', 'x-custom', 'X-CUSTOM', 'Content-Type', 'content-length', 'Cookie', 'Host', 'Accept', 'X-Missing', 'Forwarded']:
+                guard(d, 'get_header:' + hn, lambda hn=hn: req.get_header(hn))
+            guard(d, 'get_header:default', lambda: req.get_header('X-Missing', default='dflt'))
+            guard(d, 'get_header:required', lambda: req.get_header('X-Missing', required=True))
+        elif g == 'get_header_as*':
+            for hn in ['X-Int', 'Content-Length', 'Max-Forwards']:
+                guard(d, 'get_header_as_int:' + hn, lambda hn=hn: req.get_header_as_int(hn))
+            for hn in ['Date', 'If-Range', 'X-Custom']:
+                guard(d, 'get_header_as_datetime:' + hn, lambda hn=hn: req.get_header_as_datetime(hn))
+        elif g == 'get_param*':
+            for pn in ['a', 'b', 'k', 'x', 'n', 'flag', 'q', 'missing']:
+                guard(d, 'get_param:' + pn, lambda pn=pn: req.get_param(pn))
+                guard(d, 'get_param_as_list:' + pn, lambda pn=pn: req.get_param_as_list(pn))
+                guard(d, 'has_param:' + pn, lambda pn=pn: req.has_param(pn))
+            guard(d, 'get_param_as_int:n', lambda: req.get_param_as_int('n'))
+            guard(d, 'get_param_as_int:a', lambda: req.get_param_as_int('a'))
+            guard(d, 'get_param_as_float:f', lambda: req.get_param_as_float('f'))
+            guard(d, 'get_param_as_bool:a', lambda: req.get_param_as_bool('a'))
+            guard(d, 'get_param_as_bool:flag', lambda: req.get_param_as_bool('flag', blank_as_true=True))
+            guard(d, 'get_param:required', lambda: req.get_param('missing', required=True))
+        elif g == 'get_cookie_values*':
+            for cn in ['a', 'b', 'zz']:
+                guard(d, 'get_cookie_values:' + cn, lambda cn=cn: req.get_cookie_values(cn))
+        elif g == 'client_accepts*':
+            for mt in ['application/json', 'text/html', 'application/xml']:
+                guard(d, 'client_accepts:' + mt, lambda mt=mt: req.client_accepts(mt))
+            guard(d, 'client_prefers', lambda: req.client_prefers(['text/html', 'application/json']))
+
+    def read_attr(d, req, a, nth):
+        """the nth read (1-based) of public attribute a on this request object"""
+        again = '' if nth == 1 else f' (read #{nth})'
+        if a == 'headers':
+            def f():
+                h = req.headers
+                # the documented per-interface difference (upper- vs lower-case names) is normalised away, the type is not
+                return {k.lower(): v for k, v in h.items()} if doc_type_ok('headers', h) else h
+            guard(d, 'headers(lower-cased keys)' + again, f, 'headers')
+        else:
+            guard(d, a + again, lambda: getattr(req, a), a)
+
     def digest_sync(req, kwargs):
-        d = {}
-        for a in ATTRS:
-            if a == 'headers':
-                guard(d, 'headers(lower-cased keys)', lambda: {k.lower(): v for k, v in req.headers.items()})
+        """Everything the responder looks at, in the order the case's read script says."""
+        d, reads, times = {}, CUR['reads'], {}
+        if reads == 'documented order':
+            reads = ATTRS + GROUPS
+        for tok in reads:
+            if tok in GROUPS:
+                probe_group(d, req, tok)
             else:
-                guard(d, a, lambda a=a: getattr(req, a))
-        for hn in ['X-Custom', 'x-custom', 'X-CUSTOM', 'Content-Type', 'content-length', 'Cookie', 'Host', 'Accept', 'X-Missing', 'Forwarded']:
-            guard(d, 'get_header:' + hn, lambda hn=hn: req.get_header(hn))
-        guard(d, 'get_header:default', lambda: req.get_header('X-Missing', default='dflt'))
-        guard(d, 'get_header:required', lambda: req.get_header('X-Missing', required=True))
-        for hn in ['X-Int', 'Content-Length', 'Max-Forwards']:
-            guard(d, 'get_header_as_int:' + hn, lambda hn=hn: req.get_header_as_int(hn))
-        for hn in ['Date', 'If-Range', 'X-Custom']:
-            guard(d, 'get_header_as_datetime:' + hn, lambda hn=hn: req.get_header_as_datetime(hn))
-        for pn in ['a', 'b', 'k', 'x', 'n', 'flag', 'q', 'missing']:
-            guard(d, 'get_param:' + pn, lambda pn=pn: req.get_param(pn))
-            guard(d, 'get_param_as_list:' + pn, lambda pn=pn: req.get_param_as_list(pn))
-            guard(d, 'has_param:' + pn, lambda pn=pn: req.has_param(pn))
-        guard(d, 'get_param_as_int:n', lambda: req.get_param_as_int('n'))
-        guard(d, 'get_param_as_int:a', lambda: req.get_param_as_int('a'))
-        guard(d, 'get_param_as_float:f', lambda: req.get_param_as_float('f'))
-        guard(d, 'get_param_as_bool:a', lambda: req.get_param_as_bool('a'))
-        guard(d, 'get_param_as_bool:flag', lambda: req.get_param_as_bool('flag', blank_as_true=True))
-        guard(d, 'get_param:required', lambda: req.get_param('missing', required=True))
-        for cn in ['a', 'b', 'zz']:
-            guard(d, 'get_cookie_values:' + cn, lambda cn=cn: req.get_cookie_values(cn))
-        for mt in ['application/json', 'text/html', 'application/xml']:
-            guard(d, 'client_accepts:' + mt, lambda mt=mt: req.client_accepts(mt))
-        guard(d, 'client_prefers', lambda: req.client_prefers(['text/html', 'application/json']))
+                times[tok] = times.get(tok, 0) + 1
+                read_attr(d, req, tok, times[tok])
         d['route_params'] = ['ok', canon(kwargs)]
         return d
 
@@ -354,14 +537,23 @@ def run(ctx):
             return None if b is None else b'<<' + b + b'>>'
     RC = {(False, 'std'): None, (False, 'sub'): SubW, (False, 'render'): RenderW,
           (True, 'std'): None, (True, 'sub'): SubA, (True, 'render'): RenderA}
+
+    class SubReqW(falcon.Request):          # what `request_type=` is for: a subclass (here one that changes nothing)
+        pass
+
+    class SubReqA(falcon.asgi.Request):
+        pass
+    QC = {(False, 'std'): None, (False, 'sub'): SubReqW, (True, 'std'): None, (True, 'sub'): SubReqA}
     apps = {}
 
     def get_app(asgi, p, opts):
-        key = (asgi, p['dflt'], p['resp_class'])
+        key = (asgi, p['dflt'], p['resp_class'], p['req_class'])
         if key not in apps:
             kw = {'media_type': p['dflt']}
             if RC[(asgi, p['resp_class'])] is not None:
                 kw['response_type'] = RC[(asgi, p['resp_class'])]
+            if QC[(asgi, p['req_class'])] is not None:
+                kw['request_type'] = QC[(asgi, p['req_class'])]
             a = (falcon.asgi.App if asgi else falcon.App)(**kw)
             a.add_route('/items/{item}', AItem() if asgi else WItem())
             a.add_route('/items/{item}/sub/{n:int}', AItem() if asgi else WItem())
@@ -373,49 +565,6 @@ def run(ctx):
         a.req_options.auto_parse_qs_csv = opts['csv']
         return a
 
-    # ------------------------------------------------------------------ generators
-    def gen_wire():
-        method = rnd.choice(['GET', 'GET', 'POST', 'PUT', 'HEAD', 'DELETE', 'PATCH', 'OPTIONS'])
-        r = rnd.random()
-        if r < 0.12:
-            path = '/items/' + rnd.choice(['42', 'caf%C3%A9', 'a%2Fb', '%ff']) + rnd.choice(['', '', '/', '/sub/7', '/sub/x'])
-        elif r < 0.18:
-            path = '/'
-        else:
-            path = '/' + '/'.join(rnd.choice(SEGS) for _ in range(rnd.randint(1, 4))) + rnd.choice(['', '', '/'])
-        query = rnd.choice(QUERIES)
-        target = path + ('?' + query if query or rnd.random() < 0.05 else '')
-        names = rnd.sample([h for h in HV if h != 'User-Agent'], rnd.randint(0, 6))
-        headers = []
-        for n in names:
-            nm = rnd.choice([n, n.lower(), n.upper()])
-            # a field line that is present but empty ("Accept:") is legal HTTP; Accept gets it more often (its absent/empty defaulting is per-stack code)
-            headers.append((nm, '' if rnd.random() < (0.15 if n == 'Accept' else 0.05) else rnd.choice(HV[n])))
-            if rnd.random() < 0.2 and n.lower() not in SINGLETONS:
-                headers.append((rnd.choice([nm, n.lower()]), '' if rnd.random() < 0.05 else rnd.choice(HV[n])))
-        headers.append((rnd.choice(['User-Agent', 'user-agent']), '' if rnd.random() < 0.03 else rnd.choice(HV['User-Agent'])))
-        http10 = rnd.random() < 0.05
-        if not http10:
-            headers.insert(rnd.randint(0, len(headers)), (rnd.choice(['Host', 'host', 'HOST']), rnd.choice(HOSTS[:8]) if rnd.random() < 0.93 else rnd.choice(HOSTS[8:])))
-        ctype, body = rnd.choice(BODIES) if method in ('POST', 'PUT', 'PATCH', 'DELETE') or rnd.random() < 0.1 else (None, b'')
-        if ctype is not None:
-            headers.append((rnd.choice(['Content-Type', 'content-type']), ctype))
-        if body:
-            headers.append((rnd.choice(['Content-Length', 'content-length']), str(len(body))))
-        else:
-            r = rnd.random()
-            if r < 0.15:
-                headers.append(('Content-Length', '0'))
-            elif r < 0.21:
-                headers.append(('Content-Length', rnd.choice(['x', '-1', '', '1e3', '5'])))
-        rnd.shuffle(headers)
-        scheme = rnd.choice(['http', 'http', 'https'])
-        server = (rnd.choice(['falconframework.org', 'localhost', '10.0.0.5']), rnd.choice([80, 443, 8080]))
-        client = rnd.choice([None, ('10.0.0.1', 5555), ('192.0.2.7', 40000), ('1.1.1.1', 1)])
-        w = H.Wire(method, target, headers, body, scheme, server, client, rnd.choice(['', '', '/app', '/a/b']))
-        w.http10 = http10
-        return w
-
     def malformed_cl(w):
         v = [v for k, v in w.headers if k.lower() == 'content-length']
         return bool(v) and not (v[0].isdigit() and v[0].isascii())
@@ -425,7 +574,7 @@ def run(ctx):
         return {'status': code, 'headers': sorted([k.lower(), R.norm_cookie(v) if k.lower() == 'set-cookie' else v] for k, v in pairs), 'body': body, 'raised': raised}
 
     def setup(p, mode):
-        CUR.update(plan=p, mode=mode, snap={}, probe=None, digest=None)
+        CUR.update(plan=p, mode=mode, snap={}, probe=None, digest=None, reads=p['reads'])
 
     def via_spec_wsgi(w, p, mode, opts):
         def once():
@@ -527,10 +676,18 @@ def run(ctx):
         if hangs[0] >= 2:
             ctx.notes.append(f'shard {ctx.shard[0]}: stopped after case {ci}: the application repeatedly did not return (reported as oracle failures)')
             break
-        w = gen_wire()
+        w = gen_wire(rnd, H)
         p = R.gen_plan(rnd, sse_ok=False)
         if w.method != p['method']:
             p['method'] = w.method
+        # dimensions of the responder / application that C06 adds to C05's response plans
+        p['req_class'] = rnd.choice(['std', 'std', 'sub'])                       # App(request_type=<do-nothing subclass>)
+        if p['media'] not in (None, 'unserialisable') and rnd.random() < 0.35:   # the "empty" JSON documents: [] {} 0 0.0 false ""
+            p['media'] = rnd.choice(R.FALSY_MEDIA)
+        if p['stream'] is not None and p['stream']['kind'].startswith('file') and rnd.random() < 0.3:
+            p['stream']['reader'] = R.gen_reader(rnd)                            # a file-like object with short reads before the end
+            p['stream']['chunks'] = []
+        p['reads'] = gen_reads(rnd, ATTRS, GROUPS)                               # the order in which the responder reads the request
         mode = rnd.choice(BODY_MODES)
         if malformed_cl(w):
             # RFC 9112 6.3: a server answers 400 itself when Content-Length is unparsable (it cannot frame the message), so such a
@@ -550,6 +707,11 @@ def run(ctx):
             hangs[0] += 1
         what = diff(dw, da)
         ctx.oracle('stacks agree: request seen by the responder', what is None, what, case)
+        for stack, dg in (('wsgi', dw), ('asgi', da)):
+            if dg is not None:
+                bad = digest_faults(dg)
+                ctx.oracle(f'one request object ({stack}): an attribute read again gives the same value; every value has its documented type',
+                           not bad, '; '.join(bad[:4]) or None, case)
         what = None if rw == ra else f'WSGI {rw!r} vs ASGI {ra!r}'
         ctx.oracle('stacks agree: response', what is None, what, case)
 
@@ -591,6 +753,19 @@ def run(ctx):
         ctx.count('method_' + w.method)
         ctx.count('body_mode_' + mode)
         ctx.count('with_body' if w.body else 'without_body')
+        ctx.count('attribute_reads_' + ('documented_order' if p['reads'] == 'documented order' else
+                                        'everything_twice_in_two_random_orders' if len(p['reads']) >= 2 * len(ATTRS) else 'random_permutation_with_re-reads'))
+        ctx.count('request_type_' + p['req_class'] + '/response_type_' + p['resp_class'])
+        if p['media'] in R.FALSY_MEDIA:
+            ctx.count('media_falsy_document_' + p['media'] + ('(custom response_type)' if p['resp_class'] != 'std' else ''))
+        if p['stream'] is not None and p['stream'].get('reader'):
+            rd = p['stream']['reader']
+            hand = R.reader_handouts(rd)
+            ctx.count('file_stream_short_reads_' + rd['pattern'] + ('' if p['stream']['kind'] == 'file' else '(no close())'))
+            if any(0 < len(c) < R.BLOCK for c in hand[:-2]):
+                ctx.count('file_stream_with_a_short_read_before_the_end')
+            if rd['size'] > R.BLOCK:
+                ctx.count('file_stream_longer_than_one_8KiB_block')
         if any(v == '' for _, v in w.headers):
             ctx.count('with_a_present_but_empty_header')
         if any(k.lower() == 'accept' and v == '' for k, v in w.headers):
@@ -600,6 +775,7 @@ def run(ctx):
     sess.finish()
     header_lookup_part(ctx, rnd, falcon, H, json)
     target_part(ctx, rnd, falcon, H, json)
+    read_history_part(ctx, rnd, falcon, H, json)
     loop.close()
 
 
@@ -719,9 +895,14 @@ def header_lookup_part(ctx, rnd, falcon, H, json):
         for n in lookups:
             got[n] = ([res(lambda: wreq.get_header(n)), res(lambda: wreq.get_header(n, default='dflt')), res(lambda: wreq.get_header(n, required=True))],
                       [res(lambda: areq.get_header(n)), res(lambda: areq.get_header(n, default='dflt')), res(lambda: areq.get_header(n, required=True))])
-        hw, hl, ha = dict(wreq.headers), dict(wreq.headers_lower), dict(areq.headers)
-        ha2 = dict(areq.headers_lower)
-        ctw, cta = wreq.content_type, areq.content_type
+        try:
+            hw, hl, ha = dict(wreq.headers), dict(wreq.headers_lower), dict(areq.headers)
+            ha2 = dict(areq.headers_lower)
+            ctw, cta = wreq.content_type, areq.content_type
+        except Exception as e:  # noqa
+            ctx.oracle('stacks agree: header lookups on Request objects built from the spec-faithful environ / scope', False,
+                       f'reading headers, headers_lower (in that order) and content_type raised {type(e).__name__}: {e}', case)
+            continue
         clw, cla = cl(wreq), cl(areq)
         expect = ('g=' + ('|'.join(','.join(got[n][0]) + '/' + ','.join(got[n][1]) for n in lookups) or '-')
                   + ' HW=' + enc_d(hw) + ' HL=' + enc_d(hl) + ' HA=' + enc_d(ha)
@@ -753,6 +934,132 @@ def header_lookup_part(ctx, rnd, falcon, H, json):
         if any(lows.count(x) > 1 for x in set(lows)):
             ctx.count('hdr_case_with_repeated_name')
         ctx.seen(json.dumps(['hdr', case], sort_keys=True, default=repr), len(headers) >= 2)
+    sess.finish()
+
+
+# ---------------------------------------------------------------------- request side: histories of reads on one request object vs the Rm model
+MEMO_NAMES = ['if_match', 'if_none_match', 'forwarded', 'uri', 'url', 'relative_uri', 'prefix', 'forwarded_uri', 'forwarded_prefix', 'forwarded_scheme',
+              'forwarded_host', 'headers', 'headers_lower', 'cookies', 'get_cookie_values', 'access_route', 'remote_addr']
+
+
+def read_history_part(ctx, rnd, falcon, H, json):
+    """One wire request -> environ / scope by the spec-faithful drivers -> ONE falcon.Request and ONE falcon.asgi.Request object (stock
+    class or a do-nothing subclass), on which the same history of reads is performed: every public attribute the check compares (+
+    get_cookie_values) in a random order, some several times, or a short script over the memoized accessors.  Oracles (direct readings
+    of "sees the same request"): every read returns what a FRESH object returns for that attribute when nothing else was read before
+    (the value does not depend on the order or repetition of reads), WSGI and ASGI agree read by read, every value has its documented
+    type.  Correspondence: the Lean model Rm (ReqMemo.lean: which private cell each accessor tests / assigns / returns and which
+    accessors it reads meanwhile) predicts every read of every history."""
+    import inspect
+    import falcon.asgi
+    import warnings
+    warnings.simplefilter('ignore')
+
+    class SubW(falcon.Request):
+        pass
+
+    class SubA(falcon.asgi.Request):
+        pass
+    CLS = {'std': (falcon.Request, falcon.asgi.Request), 'sub': (SubW, SubA)}
+    NAMES = ATTRS + ['get_cookie_values']
+
+    def alias_of(cls, name):
+        """`url = uri`: the very same property object under a second name"""
+        me = inspect.getattr_static(cls, name)
+        for n in NAMES:
+            if n == name:
+                return name
+            if inspect.getattr_static(cls, n) is me:
+                return n
+    ALIAS = {k: {n: alias_of(c, n) for n in NAMES} for k, c in (('w', falcon.Request), ('a', falcon.asgi.Request))}
+
+    async def receive():  # never awaited: no body is read
+        raise AssertionError('receive() called')
+
+    def get(req, name):
+        try:
+            v = req.get_cookie_values('a') if name == 'get_cookie_values' else getattr(req, name)
+        except falcon.HTTPError as e:
+            return ['http', e.status if isinstance(e.status, (int, str)) else str(e.status), e.title, e.description], None
+        except Exception as e:  # noqa
+            return ['EXC', type(e).__name__], None
+        if not doc_type_ok(name, v):
+            return ['UNDOCUMENTED TYPE', type(v).__name__, repr(v)[:60]], v
+        return ['ok', canon(v)], v
+
+    OPTS = {}
+    for strip in (False, True):
+        for kb in (False, True):
+            for csv in (False, True):
+                o = falcon.RequestOptions()
+                o.strip_url_path_trailing_slash, o.keep_blank_qs_values, o.auto_parse_qs_csv = strip, kb, csv
+                OPTS[(strip, kb, csv)] = o
+
+    sess = ctx.session('histories of attribute reads on one request object: falcon.Request and falcon.asgi.Request = Rm model (memoized accessors)', 'rmdriver')
+    for ci in range(ctx.n(1500, 20000)):
+        w = gen_wire(rnd, H)
+        w.body = b''
+        kind = rnd.choice(['std', 'std', 'sub'])
+        ok_ = (rnd.random() < 0.3, rnd.random() < 0.5, rnd.random() < 0.5)
+        if rnd.random() < 0.35:
+            hist = [rnd.choice(MEMO_NAMES) for _ in range(rnd.randint(2, 8))]
+            shape = 'short_script_over_memoized_accessors'
+        else:
+            hist = gen_reads(rnd, NAMES)
+            shape = 'documented_order' if hist == 'documented order' else 'everything_twice_in_two_random_orders' if len(hist) >= 2 * len(NAMES) else 'random_permutation_with_re-reads'
+            if hist == 'documented order':
+                hist = list(NAMES)
+        env, scope = H.wsgi_environ(w), H.asgi_scope(w)
+        mk = {'w': lambda: CLS[kind][0](dict(env), options=OPTS[ok_]), 'a': lambda: CLS[kind][1](dict(scope), receive, options=OPTS[ok_])}
+        case = {'wire': w.describe(), 'request_class': 'stock' if kind == 'std' else 'do-nothing subclass',
+                'options': {'strip': ok_[0], 'keep_blank': ok_[1], 'csv': ok_[2]}, 'reads_in_order': hist}
+        try:
+            fresh = {st: {n: get(mk[st](), n)[0] for n in set(hist)} for st in 'wa'}      # each attribute on an object of its own
+            objs = {st: mk[st]() for st in 'wa'}
+        except Exception as e:  # noqa
+            ctx.oracle('one request object: the value of an attribute does not depend on the order / repetition of reads', False,
+                       f'constructing the Request objects raised {type(e).__name__}: {e}', case)
+            continue
+        seen = {st: [get(objs[st], n) for n in hist] for st in 'wa'}
+
+        bad_order, bad_type = [], []
+        for st, stack in (('w', 'WSGI'), ('a', 'ASGI')):
+            for i, n in enumerate(hist):
+                got = seen[st][i][0]
+                if got[0] == 'UNDOCUMENTED TYPE':
+                    bad_type.append(f'{stack} read #{i + 1} ({n}): a {got[1]} ({got[2]}) is not a documented value of this attribute')
+                if got != fresh[st][n]:
+                    bad_order.append(f'{stack} read #{i + 1} ({n}) after {hist[max(0, i - 3):i]!r}: {got!r}, on a fresh object: {fresh[st][n]!r}')
+        ctx.oracle('one request object: the value of an attribute does not depend on the order / repetition of reads', not bad_order, '; '.join(bad_order[:3]) or None, case)
+        ctx.oracle('one request object: every value read has its documented type', not bad_type, '; '.join(bad_type[:3]) or None, case)
+
+        def lowered(n, g):
+            return ['ok', {k.lower(): v for k, v in g[1].items()}] if n == 'headers' and g[0] == 'ok' else g
+        bad = [f'read #{i + 1} ({n}): WSGI {seen["w"][i][0]!r} vs ASGI {seen["a"][i][0]!r}' for i, n in enumerate(hist)
+               if lowered(n, seen['w'][i][0]) != lowered(n, seen['a'][i][0])]
+        ctx.oracle('stacks agree: the same history of attribute reads on Request objects built from the spec-faithful environ / scope', not bad, '; '.join(bad[:3]) or None, case)
+
+        # ---- the Lean model of the memo cells predicts every read
+        sess.case(case)
+        for st in 'wa':
+            names = [ALIAS[st][n] for n in hist]
+            nones = sorted({ALIAS[st][n] for n in set(hist) if fresh[st][n] == ['ok', None]})
+            exp = []
+            for i, n in enumerate(hist):
+                got, raw = seen[st][i]
+                if got == fresh[st][n]:
+                    exp.append('~' if got == ['ok', None] else '=')
+                else:
+                    exp.append('U' if type(raw).__name__ == '_Unset' else '~' if got == ['ok', None] else 'X:' + (type(raw).__name__ if got[0] != 'EXC' else got[1]))
+            sess.op(f"m st={st} none={','.join(nones) or '-'} h={','.join(names)}", ','.join(exp))
+
+        ctx.count('read_history_' + shape)
+        ctx.count('read_history_request_class_' + ('stock' if kind == 'std' else 'do-nothing_subclass'))
+        if any(hist.index(n) < i for i, n in enumerate(hist)):
+            ctx.count('read_history_with_a_repeated_read')
+        if 'if_none_match' in hist and 'if_match' in hist[hist.index('if_none_match'):]:
+            ctx.count('read_history_reads_if_match_after_if_none_match')
+        ctx.seen(json.dumps(['hist', case], sort_keys=True, default=repr), len(set(hist)) >= 2)
     sess.finish()
 
 
@@ -969,11 +1276,15 @@ LEVEL_TEXT = ('Proof, partial. Machine-checked (Lean 4): the response-finalizati
               'and for every wire request (raw request-target bytes with arbitrary percent-escapes, method, scheme, server / client address, mount point, Host or not) of the stated domain, every liberty the two specifications '
               'leave to a server and every setting of the request options, method, path, query_string, params, root_path / app, scheme, host, port, netloc, remote_addr and access_route are identical '
               '(Wq.request_view_agree; path_agree and scheme_agree hold without any hypothesis; each exclusion of the domain has a machine-checked witness, three are proved exact) - '
-              'both request-side models are tied to the real request classes by correspondences that also cover requests outside the domain. '
+              'both request-side models are tied to the real request classes by correspondences that also cover requests outside the domain; '
+              'for every history of reads on one request object - any order, any repetition, accessors that fill each other\'s cells while computing - every read of a memoized accessor of either class returns the computed value '
+              '(Rm.wsgi_history_independent / asgi_history_independent / stacks_histories_agree; the transcribed cell tables pass a decidable well-formedness check, a table with a neighbour\'s cell in a guard is rejected and has a witness), '
+              'tied to the real classes by a fourth correspondence over generated read histories; a file-like response stream given by its read contract (short reads before the end, any cap pattern, any positive block size) is '
+              'delivered completely and identically by both stacks (Fr.wsgi_payload_complete / asgi_payload_complete), tied through the response correspondence (the driver derives the read(8192) results from the contract). '
               'The rest of the request side (URL reconstruction, the forwarded_* family, typed accessors, cookies, body under every chunking, media) and the equivalence of falcon.testing.simulate_request with the '
               'spec-faithful drivers are established by differential comparison on generated wire-level requests only.')
 LEVEL_NOTE = ('Trusted: Lean kernel + standard axioms; harness/lib_http.py as the meaning of "a PEP 3333 server" / "an ASGI server"; the comparison harness. '
               'On the request side the theorems cover the header stores (model Wr: code points < 256, str.upper()/lower() tables checked against Python on every run) and the request line / connection attributes '
               '(model Wq: CPython UTF-8 decoding as U8.decodeReplace / a strict twin, str(int) as Nat.toDigits); the other request attributes and '
               'falcon.testing rest on the differential comparison (translation-validation strength).')
-TECHNIQUE = 'Lean 4 relational theorems (WSGI tail = ASGI tail; WSGI header store = ASGI header store via a common canonical form; WSGI view = ASGI view of one wire request, per attribute and as a record) + 4-way differential comparison: spec WSGI driver / spec ASGI driver / falcon.testing on each stack, on generated wire-level requests'
+TECHNIQUE = 'Lean 4 relational theorems (WSGI tail = ASGI tail; WSGI header store = ASGI header store via a common canonical form; WSGI view = ASGI view of one wire request, per attribute and as a record; history-independence of the memoized accessors by a state invariant over all read histories; completeness of the stream pump by induction over all short-read patterns) + 4-way differential comparison: spec WSGI driver / spec ASGI driver / falcon.testing on each stack, on generated wire-level requests'
